@@ -159,40 +159,6 @@ def pos_ok(L, x):
     return x == -1 or L + 1 - x != -1
 
 
-def sentinel_inert(L, x, ext, int_):
-    ok = True
-    if ext == -1:
-        ok = ok and abs(x - int_) <= abs(x + 1) and abs(x - int_) <= abs(L + 2 - x)
-    if int_ == -1:
-        ok = ok and abs(x - ext) <= abs(x + 1) and abs(x - ext) <= abs(L + 2 - x)
-    return ok
-
-
-def inert_beyond(L, iso, ext, int_):
-    """Model/C11SymAssignMirror.lean `SentinelInertBeyond`"""
-    pos = int_ if int_ != -1 else ext
-    c = 0
-    for e in iso[::-1]:
-        if e[0] >= pos:
-            c += 1
-        else:
-            break
-    b = _pyget(iso, -c - 1)
-    return b is None or c == len(iso) or c == 0 or sentinel_inert(L, b[1], ext, int_)
-
-
-def inert_before(L, iso, ext, int_):
-    pos = int_ if int_ != -1 else ext
-    c = 0
-    for e in iso:
-        if e[1] <= pos:
-            c += 1
-        else:
-            break
-    b = iso[c] if c < len(iso) else None
-    return b is None or c == 0 or c == len(iso) or sentinel_inert(L, b[0], ext, int_)
-
-
 def m_shift_polya(exons, cnt, pos):
     """Model/Assign.lean `shiftPolya` (None = error)"""
     n = len(exons)
@@ -239,7 +205,6 @@ def polya_ok(L, iso, read, polya, evs):
         e1, i1 = sh(read, fake, ext), sh(read, fake, int_)
         if e1 is not None and i1 is not None:
             ok = ok and (ext == -1 or no_sent(L, e1)) and (int_ == -1 or no_sent(L, i1))
-            ok = ok and (inert_beyond if which == "a" else inert_before)(L, iso, e1, i1)
         out[which] = bool(ok)
     return out
 
@@ -503,6 +468,7 @@ PA_KEYS = ["params", "iso", "read", "polya", "events"]
 
 WITNESS_ELONG = {"params": NANOPORE, "split": [[10, 20], [30, 40]], "iso_profile": [1, 0], "iso_range": [0, 1],
                  "read_profile": [0, 1], "read_range": [1, 2], "blocks": [[20, 38]]}
+# regression input of fix a2ae069 (sentinel used as a coordinate): the relation must HOLD on model and code now
 WITNESS_POLYA = {"params": NANOPORE, "iso": [[5, 30], [180, 190]], "read": [[5, 30]], "polya": [135, -1, -1, -1], "events": []}
 WITNESS_OVERLAP = {"p1": [1, 0], "p2": [1, 1], "range": [0, 5]}
 WITNESS_CLOSE = {"params": NANOPORE, "stop": 990, "ext": 1001, "int": -1, "events": [], "ty": "correct_polya_site_right"}
@@ -567,8 +533,6 @@ def _tout_pa(par, kw, v):
 
 def _dom_pa(which):
     def dom(par, kw):
-        if which == "a" and kw == WITNESS_POLYA and par["L"] == 1000:
-            return "witness"
         return polya_ok(par["L"], kw["iso"], kw["read"], kw["polya"], kw["events"])[which]
     return dom
 
@@ -615,11 +579,9 @@ def _tout_detect(par, kw, v):
 def _dom_detect(which):
     def dom(par, kw):
         L, iso, ext, int_ = par["L"], kw["iso"], kw["ext"], kw["int"]
-        if not ((ext != -1 or int_ != -1) and pos_ok(L, ext) and pos_ok(L, int_)):
+        if not (pos_ok(L, ext) and pos_ok(L, int_)):
             return False
-        if iso and (iso[-1][1] if which == "a" else iso[0][0]) == -1:
-            return False
-        return (inert_beyond if which == "a" else inert_before)(L, iso, ext, int_)
+        return not (iso and (iso[-1][1] if which == "a" else iso[0][0]) == -1)
     return dom
 
 
@@ -1075,6 +1037,8 @@ def _cases(ctx):
     quick = ctx.tier == "quick"
     rng = ctx.rng
     out = [("M.am.elongation", {"L": 50}, WITNESS_ELONG), ("M.am.verify_polya", {"L": 1000}, WITNESS_POLYA),
+           ("M.am.verify_read_ends", {"L": 1000}, dict(WITNESS_POLYA, strand="+")),
+           ("M.am.detect_beyond", {"L": 1000}, {"params": NANOPORE, "iso": WITNESS_POLYA["iso"], "ext": 135, "int": -1, "events": []}),
            ("M.am.check_if_close", {"L": 999}, WITNESS_CLOSE),
            ("M.am.check_if_close", {"L": 2000}, WITNESS_CLOSE)]
     out += gen_table_cases(rng, quick)
